@@ -205,7 +205,13 @@ struct VCondVar {
 	}
 
 	template <typename Lock, typename Rep, typename Period, typename Pred>
-	bool wait_for(Lock & lock, const std::chrono::duration<Rep, Period> &, Pred pred) {
+	bool wait_for(Lock & lock, const std::chrono::duration<Rep, Period> & d, Pred pred) {
+		// the caller's time-out must arrive unchanged (the harness always passes 1500 microseconds): a truncated
+		// duration makes waitFor give up before its time-out
+		if(std::chrono::duration_cast<std::chrono::nanoseconds>(d).count() != 1500000LL) {
+			std::lock_guard<std::mutex> lk(g->m);
+			g->log.push_back("note " + std::to_string(tl_tid) + " waitfor-duration-altered " + std::to_string((long long)std::chrono::duration_cast<std::chrono::nanoseconds>(d).count()));
+		}
 		for(;;) {
 			tl_inPred = true; bool p = pred(); tl_inPred = false;
 			if(p) return true;
@@ -220,6 +226,22 @@ struct VCondVar {
 struct Policies {
 	using Threading = eventpp::GeneralThreading<VMutex, VAtomic, VCondVar>;
 };
+
+// payload of the homogeneous variants: converts from / to long; a copy or move of a queued payload made by peekEvent
+// while the queue mutex is NOT held is a step of its own ("peek-copy-unlocked"): the model has no such step - peekEvent
+// reads the front event inside its critical section - so the replay reports it
+struct Pay {
+	long v;
+	Pay(long x = 0) : v(x) {}
+	static void touch() {
+		if(g && g->active && tl_tid >= 0 && tl_held == 0 && std::string(tl_call) == "peek") { yieldPoint(); g->step("peek-copy-unlocked"); }
+	}
+	Pay(const Pay & o) : v(o.v) { touch(); }
+	Pay(Pay && o) noexcept : v(o.v) { touch(); }
+	Pay & operator=(const Pay & o) { touch(); v = o.v; return *this; }
+	Pay & operator=(Pay && o) noexcept { touch(); v = o.v; return *this; }
+	operator long() const { return v; }
+};
 #ifdef VQ_HETER
 // the heterogeneous queue has the same synchronisation skeleton (Conc/Queue.lean models both): the same runs
 // are replayed on the same model; calls it does not have (processUntil, takeEvent, peekEvent, DisableQueueNotify)
@@ -228,9 +250,9 @@ struct Policies {
 using Queue = eventpp::HeterEventQueue<int, eventpp::HeterTuple<void(long), void(const std::string &)>, Policies>;
 #elif defined(VQ_INCLUDE)
 // the event is part of the prototype: enqueue(1, payload) goes through the OTHER enqueue overload (event included)
-using Queue = eventpp::EventQueue<int, void(int, long), Policies>;
+using Queue = eventpp::EventQueue<int, void(int, Pay), Policies>;
 #else
-using Queue = eventpp::EventQueue<int, void(long), Policies>;
+using Queue = eventpp::EventQueue<int, void(Pay), Policies>;
 #endif
 #ifdef VQ_INCLUDE
 #define CBARGS int, long payload
@@ -336,7 +358,7 @@ static void runOne(const Run & r) {
 						else if(c == "clear") { q.clearEvents(); rets[t].push_back("unit"); }
 						else if(c == "empty") rets[t].push_back(q.emptyQueue() ? "true" : "false");
 						else if(c == "wait") { q.wait(); rets[t].push_back("unit"); }
-						else if(c == "waitfor") rets[t].push_back(q.waitFor(std::chrono::milliseconds(1)) ? "true" : "false");
+						else if(c == "waitfor") rets[t].push_back(q.waitFor(std::chrono::microseconds(1500)) ? "true" : "false");
 						else { std::lock_guard<std::mutex> lk(s.m); s.log.push_back("note " + std::to_string(t) + " unsupported-call " + c); }
 					}
 					tl_call = "";
